@@ -55,10 +55,13 @@ public:
         for(;;) {
             _cond.wait(lk, [&]{return !_queue.empty() || _exit;});
             if (_exit) break;
-            auto h = std::move(_queue.front());
-            _queue.pop();
-            lk.unlock();
-            h();
+            {
+                auto h = std::move(_queue.front());
+                _queue.pop();
+                lk.unlock();
+                h();
+                //h is destroyed here, with the lock released (the closure's destructor may re-enter the pool)
+            }
             //if _current is nullptr, thread_pool has been destroyed
             if (_current == nullptr) return;
             lk.lock();
